@@ -24,7 +24,7 @@ RULE = (
     "-i/-ii, creator options, flatten; distinct by canonical scenario hash."
 )
 ASSUMPTIONS = ["libxml2's XSD validator is the judge of schema validity", "e-mail option values match the XSD pattern (the brief of the property)"]
-BUDGET = {"quick": (240, 4), "thorough": (10000, 16)}
+BUDGET = {"quick": (240, 4), "thorough": (40000, 16)}
 REQUIRED = ["sf_nested", "no_file_history", "failed_run", "-dr", "many_formats", "-n", "ignore_opts", "creator_opts", "flatten"]
 
 _text = st.one_of(gen.names("full"), st.text(max_size=20).filter(lambda s: all(ord(c) >= 32 and c not in "\x7f  ￾￿" and not (0xD800 <= ord(c) <= 0xDFFF) and not (0x80 <= ord(c) < 0xA0) for c in s)))
